@@ -762,4 +762,56 @@ example :
     (run (shiftP 5 p) (shiftEv 5 ev) 15).endDate = some 11 ∧ (run p ev 10).endDate = some 6 := by
   decide +kernel
 
+/-! ### fractional repair delays: an integer day counter reaches a rational threshold at its ceiling -/
+
+/-- `⌈a / b⌉` for `b > 0` -/
+def ceilDiv (a b : Int) : Int := (a + b - 1) / b
+
+/-- an integer reaches the rational `a / b` exactly when it reaches its ceiling -/
+theorem ceilDiv_le_iff (a b n : Int) (hb : 0 < b) : ceilDiv a b ≤ n ↔ a ≤ n * b := by
+  unfold ceilDiv
+  have h1 : (a + b - 1) / b < n + 1 ↔ a + b - 1 < (n + 1) * b := Int.ediv_lt_iff_lt_mul hb
+  have h2 : (n + 1) * b = n * b + b := by rw [Int.add_mul, Int.one_mul]
+  constructor
+  · intro h
+    have := h1.1 (by omega)
+    omega
+  · intro h
+    have := h1.2 (by omega)
+    omega
+
+/-- **fractional repair delays.**  The code repairs on the first daily update with
+`days since tagged ≥ repair delay + reporting delay`; the day counter and the reporting delay are
+integers, the configured repair delay may be a fraction `a / b` of a day.  That test is the model's
+test with the integer delay `⌈a / b⌉`: a fractional delay acts exactly like its ceiling (never
+earlier than the configured delay, and on the first day that is not earlier). -/
+theorem C04_fractional_delay (dst trd a b : Int) (hb : 0 < b) :
+    (a + trd * b ≤ dst * b) ↔ (ceilDiv a b + trd ≤ dst) := by
+  have h := ceilDiv_le_iff a b (dst - trd) hb
+  have e : (dst - trd) * b = dst * b - trd * b := by rw [Int.sub_mul]
+  rw [e] at h
+  constructor
+  · intro x; have := h.2 (by omega); omega
+  · intro x; have := h.1 (by omega); omega
+
+/-- whole-day delays are their own ceiling -/
+theorem ceilDiv_whole (k b : Int) (hb : 0 < b) : ceilDiv (k * b) b = k := by
+  have h1 := (ceilDiv_le_iff (k * b) b k hb).2 (Int.le_refl _)
+  have h2 : ¬ ceilDiv (k * b) b ≤ k - 1 := by
+    intro h
+    have := (ceilDiv_le_iff (k * b) b (k - 1) hb).1 h
+    rw [Int.sub_mul, Int.one_mul] at this
+    omega
+  omega
+
+/-- the model fed with `⌈a / b⌉` takes the repair branch of `update` exactly when the code's own test
+with the fractional delay holds -/
+theorem C04_fractional_update_test (p : Params) (s : State) (a b : Int) (hb : 0 < b)
+    (hd : p.repairDelay = ceilDiv a b) :
+    (s.dst + 1 ≥ p.repairDelay + s.trd) ↔ (a + s.trd * b ≤ (s.dst + 1) * b) := by
+  rw [hd]
+  exact (C04_fractional_delay (s.dst + 1) s.trd a b hb).symm
+
+example : ceilDiv 5 2 = 3 ∧ ceilDiv 13 2 = 7 ∧ ceilDiv 3 4 = 1 ∧ ceilDiv 41 4 = 11 ∧ ceilDiv 0 4 = 0 := by decide
+
 end LdarModel.Emission
